@@ -49,4 +49,7 @@ export JPV_CLI5="$WORK/bin/json-patch-v5" JPV_CLILEGACY="$WORK/bin/json-patch-le
 
 "$WORK/bin/jpverif" run -prop "$PROP" -tier "$TIER" -seed "$SEED" -workers "$WORKERS" -dir "$WORK/run" \
   -evidence "${VERIF_EVIDENCE_DIR:-$VERIF_DIR/evidence}/$PROP.json" -replays "${VERIF_REPLAY_DIR:-$VERIF_DIR/replays}" -findings "$VERIF_DIR/known_findings.jsonl" "${EXTRA[@]}"
-exit $?
+rc=$?
+# VERIF_COVER_OUT=<dir>: keep the merged coverage profile of this run (for looking at what a workload does not reach)
+[ -n "${VERIF_COVER_OUT:-}" ] && [ -f "$WORK/run/cover.txt" ] && mkdir -p "$VERIF_COVER_OUT" && cp "$WORK/run/cover.txt" "$VERIF_COVER_OUT/$PROP.cover.txt"
+exit $rc
